@@ -51,7 +51,7 @@ def group_validate_cases(cases, seed):
         g["cands"].sort(key=lambda x: json.dumps(x["cand"], sort_keys=True))
         # free choices of the concretiser, derived from the seed and the declaration
         h = random.Random("%d|%s" % (seed, k))
-        g["opts"] = {"anchor": h.random() < 0.5, "markForm": h.random() < 0.5, "enumNums": False}
+        g["opts"] = {"anchor": h.random() < 0.5, "markForm": h.random() < 0.5, "enumNums": False, "siblings": h.random() < 0.5}
         out.append(g)
         if g["decl"]["kind"] == "enum":
             # the same declaration over an enum whose options carry explicit numbers (number = position)
@@ -230,7 +230,7 @@ def reflect_cases(raw, seed):
         h = random.Random("%d|%s" % (seed, k))
         g = {"decl": c["decl"], "expect": c["expect"],
              "opts": {"anchor": h.random() < 0.5, "markForm": h.random() < 0.5, "enumNums": False,
-                      "acroName": h.random() < 0.5}}
+                      "acroName": h.random() < 0.5, "siblings": h.random() < 0.5}}
         out.append(g)
         d = c["decl"]
         if d["kind"] == "enum" and (d["in"] or d["notIn"]):
